@@ -65,6 +65,11 @@ fn worker(argv: &[String]) {
     let variants = scn.variants(&tier);
     let params = &variants[vi];
     let bound = arg(argv, "--bound").map(|s| s.parse().unwrap()).unwrap_or_else(|| scn.bound(&tier, params));
+    let mut max_secs = max_secs;
+    if let Some(d) = arg(argv, "--deadline-unix").and_then(|s| s.parse::<u64>().ok()) {
+        let now = std::time::SystemTime::now().duration_since(std::time::UNIX_EPOCH).unwrap().as_secs();
+        max_secs = max_secs.min(d.saturating_sub(now));
+    }
     let mut ex = Explorer::new(scn, params, bound, (shard[0], shard[1]), max_secs);
     ex.explore();
     let st = ex.stats;
@@ -86,83 +91,128 @@ fn worker(argv: &[String]) {
     std::fs::write(&out, serde_json::to_string(&v).unwrap()).unwrap();
 }
 
-fn supervisor(argv: &[String]) {
-    let scn = find(&argv[2]);
-    let tier = arg(argv, "--tier").unwrap_or_else(|| "quick".into());
-    let out = arg(argv, "--out");
-    let max_secs: u64 = arg(argv, "--max-secs").map(|s| s.parse().unwrap()).unwrap_or(if tier == "thorough" { 1500 } else { 100 });
-    let variants = scn.variants(&tier);
+/// One pass of the supervisor: every (variant, shard) item run by a worker process at the given
+/// bound. `deadline_unix`: workers stop (and report `capped`) once it has passed.
+struct PassResult {
+    /// per item: (variant, shard, worker json or error text)
+    items: Vec<(usize, usize, Result<Value, String>)>,
+}
+
+fn run_pass(scn: &dyn Scenario, tier: &str, variants: &[Value], bounds: &[usize], only: &[usize], max_secs: u64, deadline_unix: Option<u64>, order_weight: &dyn Fn(usize) -> u64) -> PassResult {
     let mut items = Vec::new();
-    let mut shards_of = Vec::new();
-    for vi in 0..variants.len() {
-        let b = scn.bound(&tier, &variants[vi]);
+    let mut shards_of = vec![1usize; variants.len()];
+    let max_b = only.iter().map(|vi| bounds[*vi]).max().unwrap_or(0);
+    let n_max = only.iter().filter(|vi| bounds[**vi] == max_b).count().max(1);
+    for &vi in only {
+        let b = bounds[vi];
         // work grows steeply with the bound: spread the deepest variants over many workers
-        let max_b = variants.iter().map(|p| scn.bound(&tier, p)).max().unwrap_or(0);
-        let n_max = variants.iter().filter(|p| scn.bound(&tier, p) == max_b).count().max(1);
         let shards = if b == 0 {
             1
         } else if b == max_b {
             (64 / n_max).max(1).min(16)
-        } else if variants.len() >= 24 {
+        } else if only.len() >= 24 {
             1
         } else {
             2
         };
-        shards_of.push(shards);
+        shards_of[vi] = shards;
         for s in 0..shards {
             items.push((vi, s));
         }
     }
-    // heavier items first
-    items.sort_by_key(|(vi, _)| std::cmp::Reverse(scn.bound(&tier, &variants[*vi])));
+    // heavier bounds first; within a bound, lighter variants first (more of them complete
+    // before a deadline)
+    items.sort_by_key(|(vi, _)| (std::cmp::Reverse(bounds[*vi]), order_weight(*vi)));
     let exe = std::env::current_exe().unwrap();
     let dir = std::env::temp_dir().join(format!("simx-{}-{}", scn.name(), std::process::id()));
     let _ = std::fs::create_dir_all(&dir);
-    let level = if scn.property() == "C05" { "fault_enumeration" } else { "model_checking" };
-    let mut part = Part::new(scn.property(), scn.name(), "simx", level, &tier);
-    part.rule = scn.describe();
     let results = vh::par::par_map(items.len(), |i| {
         let (vi, s) = items[i];
         let f = dir.join(format!("w{}-{}.json", vi, s));
-        let st = std::process::Command::new(&exe)
-            .args(["worker", "--scenario", scn.name(), "--tier", &tier, "--variant", &vi.to_string(), "--shard", &format!("{}/{}", s, shards_of[vi]), "--max-secs", &max_secs.to_string(), "--out"])
-            .arg(&f)
-            .stdout(std::process::Stdio::null())
-            .stderr(std::process::Stdio::piped())
-            .output();
+        let mut cmd = std::process::Command::new(&exe);
+        cmd.args(["worker", "--scenario", scn.name(), "--tier", tier, "--variant", &vi.to_string(), "--shard", &format!("{}/{}", s, shards_of[vi]), "--max-secs", &max_secs.to_string(), "--bound", &bounds[vi].to_string()]);
+        if let Some(d) = deadline_unix {
+            cmd.args(["--deadline-unix", &d.to_string()]);
+        }
+        let st = cmd.arg("--out").arg(&f).stdout(std::process::Stdio::null()).stderr(std::process::Stdio::piped()).output();
         let text = std::fs::read_to_string(&f).ok();
         let _ = std::fs::remove_file(&f);
-        (st, text)
+        match text.and_then(|t| serde_json::from_str::<Value>(&t).ok()) {
+            Some(v) => Ok(v),
+            None => Err(st.map(|o| format!("{:?} {}", o.status, String::from_utf8_lossy(&o.stderr).chars().rev().take(400).collect::<String>().chars().rev().collect::<String>())).unwrap_or_else(|e| e.to_string())),
+        }
     });
     let _ = std::fs::remove_dir_all(&dir);
+    PassResult { items: items.into_iter().zip(results.into_iter()).map(|((vi, s), r)| (vi, s, r)).collect() }
+}
+
+/// `simx run <scenario>`. Quick tier: one pass, every variant at its quick bound. Thorough
+/// tier: pass A explores every (thorough) variant completely at the bound the quick tier would
+/// use; pass B re-explores the variants whose thorough bound is deeper at that deeper bound,
+/// under a wall budget (`--budget-secs`, default 300): what was completed at the deeper bound
+/// and what only at the lower one is reported, and `exhaustive` is true only if everything was.
+fn supervisor(argv: &[String]) {
+    let scn = find(&argv[2]);
+    let tier = arg(argv, "--tier").unwrap_or_else(|| "quick".into());
+    let out = arg(argv, "--out");
+    let thorough = tier == "thorough";
+    let max_secs: u64 = arg(argv, "--max-secs").map(|s| s.parse().unwrap()).unwrap_or(if thorough { 1500 } else { 100 });
+    let budget: u64 = arg(argv, "--budget-secs").map(|s| s.parse().unwrap()).unwrap_or(300);
+    let variants = scn.variants(&tier);
+    let deep: Vec<usize> = variants.iter().map(|p| scn.bound(&tier, p)).collect();
+    let base: Vec<usize> = variants.iter().enumerate().map(|(i, p)| if thorough { scn.bound("quick", p).min(deep[i]) } else { deep[i] }).collect();
+    let all: Vec<usize> = (0..variants.len()).collect();
+    let level = if scn.property() == "C05" { "fault_enumeration" } else { "model_checking" };
+    let mut part = Part::new(scn.property(), scn.name(), "simx", level, &tier);
+    part.rule = scn.describe();
+    let pass_a = run_pass(scn, &tier, &variants, &base, &all, max_secs, None, &|_| 0);
+    // executions of pass A per variant: the weight that orders pass B
+    let mut weight = vec![0u64; variants.len()];
+    for (vi, _, r) in &pass_a.items {
+        if let Ok(v) = r {
+            weight[*vi] += v["executions"].as_u64().unwrap_or(0);
+        }
+    }
+    let deeper: Vec<usize> = all.iter().copied().filter(|vi| deep[*vi] > base[*vi]).collect();
+    let pass_b = if thorough && !deeper.is_empty() {
+        let now = std::time::SystemTime::now().duration_since(std::time::UNIX_EPOCH).unwrap().as_secs();
+        Some(run_pass(scn, &tier, &variants, &deep, &deeper, max_secs, Some(now + budget), &|vi| weight[vi]))
+    } else {
+        None
+    };
     let mut states: HashSet<u64> = HashSet::new();
     let mut outcomes: HashSet<String> = HashSet::new();
     let mut machinery: Vec<String> = Vec::new();
     let mut by_cost: BTreeMap<String, u64> = BTreeMap::new();
     let mut bounds: HashSet<u64> = HashSet::new();
-    for (i, (st, text)) in results.into_iter().enumerate() {
-        let (vi, s) = items[i];
-        let v: Value = match text.and_then(|t| serde_json::from_str(&t).ok()) {
-            Some(v) => v,
-            None => {
-                let err = st.map(|o| format!("{:?} {}", o.status, String::from_utf8_lossy(&o.stderr).chars().rev().take(400).collect::<String>().chars().rev().collect::<String>())).unwrap_or_else(|e| e.to_string());
-                machinery.push(format!("worker variant {} shard {} produced no result: {}", vi, s, err));
-                continue;
+    let mut capped_variants: HashSet<usize> = HashSet::new();
+    let mut absorb = |part: &mut Part, vi: usize, s: usize, r: &Result<Value, String>, skip_costs_upto: Option<usize>, is_b: bool| {
+        let v = match r {
+            Ok(v) => v,
+            Err(e) => {
+                machinery.push(format!("worker variant {} shard {} produced no result: {}", vi, s, e));
+                return;
             }
         };
-        part.evaluations += v["executions"].as_u64().unwrap_or(0);
-        part.transitions += v["transitions"].as_u64().unwrap_or(0);
         for x in v["states"].as_array().unwrap() {
             states.insert(x.as_u64().unwrap());
         }
-        for (k, n) in v["outcomes"].as_object().unwrap() {
+        for (k, _) in v["outcomes"].as_object().unwrap() {
             outcomes.insert(format!("{}:{}", vi, k));
-            let _ = n;
         }
+        // pass B repeats what pass A did up to the lower bound: count only what is new
+        let mut new_execs = 0u64;
         for (k, n) in v["by_cost"].as_object().unwrap() {
+            let c: usize = k.parse().unwrap_or(0);
+            if skip_costs_upto.map(|u| c <= u).unwrap_or(false) {
+                continue;
+            }
             *by_cost.entry(k.clone()).or_insert(0) += n.as_u64().unwrap();
+            new_execs += n.as_u64().unwrap();
         }
-        bounds.insert(v["bound"].as_u64().unwrap_or(0));
+        part.evaluations += new_execs;
+        let total = v["executions"].as_u64().unwrap_or(0).max(1);
+        part.transitions += v["transitions"].as_u64().unwrap_or(0) * new_execs / total;
         for m in v["machinery"].as_array().unwrap() {
             machinery.push(format!("variant {}: {}", vi, m.as_str().unwrap_or("")));
         }
@@ -171,7 +221,12 @@ fn supervisor(argv: &[String]) {
         }
         if v["capped"].as_bool() == Some(true) {
             part.exhaustive = false;
-            part.caps.push(format!("scenario {} variant {} shard {}: wall cap {}s reached before the bound was completed", scn.name(), vi, s, max_secs));
+            capped_variants.insert(vi);
+            if !is_b {
+                part.caps.push(format!("scenario {} variant {} shard {}: wall cap reached before bound {} was completed", scn.name(), vi, s, v["bound"]));
+            }
+        } else {
+            bounds.insert(v["bound"].as_u64().unwrap_or(0));
         }
         part.violations_total += v["violations_total"].as_u64().unwrap_or(0);
         for viol in v["violations"].as_array().unwrap() {
@@ -184,19 +239,30 @@ fn supervisor(argv: &[String]) {
         for smp in v["samples"].as_array().unwrap() {
             part.sample(smp.clone());
         }
+    };
+    for (vi, s, r) in &pass_a.items {
+        absorb(&mut part, *vi, *s, r, None, false);
+    }
+    if let Some(pb) = &pass_b {
+        for (vi, s, r) in &pb.items {
+            absorb(&mut part, *vi, *s, r, Some(base[*vi]), true);
+        }
+        let n_deeper = deeper.len();
+        let n_capped = deeper.iter().filter(|vi| capped_variants.contains(vi)).count();
+        part.extra.insert("deeper_pass".into(), json!({"variants": n_deeper, "completed": n_deeper - n_capped, "budget_secs": budget}));
+        if n_capped > 0 {
+            part.caps.push(format!("scenario {}: every variant was explored completely at its quick-tier bound; of the {} variants with a deeper thorough bound, {} were completed at it and {} only in part within the {} s budget", scn.name(), n_deeper, n_deeper - n_capped, n_capped, budget));
+        }
     }
     part.states = states.len() as u64;
     part.traces_validated = part.evaluations;
-    part.distinct_nontrivial = if bounds.iter().all(|b| *b == 0) { part.evaluations } else { part.evaluations.saturating_sub(variants.len() as u64) };
+    part.distinct_nontrivial = if deep.iter().all(|b| *b == 0) { part.evaluations } else { part.evaluations.saturating_sub(variants.len() as u64) };
     part.bounds.insert("deviation_bound".into(), json!(bounds.iter().collect::<Vec<_>>()));
     part.bounds.insert("variants".into(), json!(variants.len()));
     part.extra.insert("executions_by_deviations".into(), json!(by_cost));
     part.extra.insert("distinct_outcomes".into(), json!(outcomes.len()));
-    for o in outcomes.iter().take(0) {
-        part.outcome(o);
-    }
     part.outcome_n("distinct-observations", outcomes.len() as u64);
-    part.assumptions.push("scheduling points are channel/poll operations; one I/O-loop iteration is atomic with respect to client sends; mio, std::sync::mpsc and crossbeam-channel behave as documented; transport, broker and timer wheel are models (DESIGN.md 5.8/5.9)".into());
+    part.assumptions.push("scheduling points are channel/poll operations; one I/O-loop iteration is atomic with respect to client sends (except in the fine-mode variants); mio, std::sync::mpsc and crossbeam-channel behave as documented; transport, broker and timer wheel are models (DESIGN.md 5.8/5.9)".into());
     if !machinery.is_empty() {
         for m in machinery.iter().take(8) {
             println!("MACHINERY: {}", m);
